@@ -29,7 +29,7 @@ var knownH = h.KnownRegion("C05", "aux-type-H")
 
 func draw(t *rapid.T) Case {
 	c := Case{H: sb.HSpecGen(0, 4).Draw(t, "header")}
-	opt := sb.RecOpt{NRefs: len(c.H.Refs), BigSizes: true, Aux: sb.AuxOpt{NoH: knownH}}
+	opt := sb.RecOpt{NRefs: len(c.H.Refs), BigSizes: true}
 	c.Recs = rapid.SliceOfN(sb.RecGen(opt), 0, 12).Draw(t, "recs")
 	c.WC = rapid.SampledFrom([]int{1, 2, 4}).Draw(t, "wc")
 	c.RD = rapid.SampledFrom([]int{1, 2, 4}).Draw(t, "rd")
@@ -47,14 +47,30 @@ func hasH(r sb.ARec) bool {
 }
 
 func run(c Case, rec *h.Rec) {
+	// Known finding aux-type-H: the library stores the decoded bytes of an H
+	// value where the specification stores the hex digits. Records with H fields
+	// are still generated and checked; only the spelling of the H payload itself
+	// is expected the library's way (a payload holding a zero byte cannot be
+	// stored that way at all and is left out).
+	sb.HStoredRaw = false
 	if knownH && !h.Replaying() {
 		for _, r := range c.Recs {
-			if hasH(r) {
-				rec.Skip("known:aux-type-H")
-				return
+			for _, a := range r.Aux {
+				if a.Ty != 'H' {
+					continue
+				}
+				for i := 0; i+1 < len(a.S); i += 2 {
+					if a.S[i] == '0' && a.S[i+1] == '0' {
+						rec.Skip("known:aux-type-H (payload with a zero byte)")
+						return
+					}
+				}
+				sb.HStoredRaw = true
 			}
 		}
+		rec.ClassIf(sb.HStoredRaw, "known:aux-type-H payload compared in the library's spelling")
 	}
+	defer func() { sb.HStoredRaw = false }()
 	hd, err := c.H.Build()
 	if err != nil {
 		rec.Failf("building the header through the API failed: %v", err)
